@@ -97,6 +97,7 @@ Extraction "model.ml"
   post_nodes
   flagged
   hb_run_regs
+  hb_run_regs_prefix
   cs_curr
   cs_mod
   cs_flags
